@@ -151,6 +151,7 @@ def run_shard(shard, ctx):
         _tokens(ctx, shard[1])
     elif kind == "nearmiss":
         _nearmiss(ctx)
+        _foreign_digits(ctx)
     else:
         _groups(ctx, shard[1])
 
@@ -225,7 +226,7 @@ def _tokens(ctx, kind):
                 line = "%s%s = S %d %s%s" % (lead, t, idx, ln, trail)
                 _token_case(ctx, order, line, "S", idx == 2, len(t) <= 8)
         else:
-            for word in ("solo", "soloend", "x", "a=b", '"q"', "é日♪", "[x]", "N", "two words", "tail "):
+            for word in ("solo", "soloend", "x", "a=b", '"q"', "é日♪", "[x]", "N", "two words", "tail ", "so\ufefflo", "x\u200by", "x\u00a0y", "\ufeffx"):
                 line = "%s%s = E %s%s" % (lead, t, word, trail)
                 _token_case(ctx, order, line, "E", " " not in word, len(t) <= 8)
 
@@ -258,6 +259,21 @@ def _groups(ctx, kind):
 
 
 NEAR_MISS = ("2 = S 64 5", "2 = S 0 1", "2 = N 8 0", "2 = E two words", "", "garbage", "2 = S 2", "2 = N 0", '2 = E "section a"')
+
+
+def _foreign_digits(ctx):
+    """An index written with a NON-ASCII decimal digit is not one of 0..7 / not the literal 2: such lines
+    never produce an event (ticks and lengths in other scripts stay outside the alphabet, DESIGN.md 2.1)."""
+    try:
+        order = linelang.dispatch_order(linelang.analyse("track", KINDS))
+    except A.Unsupported:
+        order = linelang.kind_classes("track")
+    for d in ("\uff10", "\uff13", "\uff17", "\u0660", "\u0967", "\u09ea", "\U0001d7d0"):
+        for line in ("0 = N %s 0" % d, "  5 = N %s 12 " % d, "0 = S %s 5" % d):
+            text = mk(res=960, sync=["0 = TS 4", "0 = B 1000000000"], tracks={"ExpertSingle": ["0 = N 1 0", line, "9 = E e"]})
+            ctx.case(("foreign-digit", line), sample=dict(line=line))
+            ctx.evaluations += 1
+            e1.check_model(ctx, "accepts-non-line", text, refmodel.model(text), msg="index written with the non-ASCII digit U+%04X: line %r" % (ord(d), line), drop=DROP)
 
 
 def _nearmiss(ctx):
